@@ -38,8 +38,8 @@ def sink_rules(run, pid):
         if kind in ("text", "attr") and not why.startswith("no string-typed"):
             n_str += 1
     run.record("sink_calls", sa.stats)
-    run.floor(pid + ".S1", "sauron_constructor_calls", sa.stats["sinks"], 80)
-    run.floor(pid + ".S1", "string_sinks", n_str, 25)
+    run.floor(pid + ".S1", "sauron_constructor_calls", sa.stats["sinks"], 40)
+    run.floor(pid + ".S1", "string_sinks", n_str, 12)
     run.floor(pid + ".S1", "text_sinks", sa.stats["by_kind"].get("text", 0), 2)
     return sa
 
